@@ -63,6 +63,12 @@ def build(case):
         ref = "$(vp_out K)"
     elif deliv == "backquote-sub":
         ref = "x`vp_out K`" if quote == "unq" else "`vp_out K`"
+    elif deliv == "dollar-sub-pipe":
+        ref = "$(vp_out K | vp_st flt 0)"       # the command text itself holds an operator character
+    elif deliv == "backquote-sub-pipe":
+        ref = "x`vp_out K | vp_st flt 0`" if quote == "unq" else "`vp_out K | vp_st flt 0`"
+    elif deliv == "backquote-whole":
+        ref = "`vp_out K`"          # the substitution is the entire word (the tokenizer gives such a word a tag of its own)
     elif deliv == "glob":
         ref = "d/*"
     elif deliv == "glob-dir":
@@ -88,7 +94,7 @@ def build(case):
         exp = "d/" + v if quote == "unq" else "d/*"
     if deliv == "glob-dir":
         exp = ref if quote == "dq" else ref.replace("*", v)
-    if deliv == "backquote-sub" and quote == "unq":
+    if deliv in ("backquote-sub", "backquote-sub-pipe") and quote == "unq":
         exp = "x" + v
     exp = affix + exp
     expargs = [nb_value, "p2"]
@@ -120,7 +126,7 @@ def symptom(case, expargs, r, recs, before, after):
     if after != before:
         return "file-created-or-changed"
     main = [x for x in recs if x["name"] == "vp_argv"]
-    other = [x for x in recs if x["name"] not in ("vp_argv", "vp_out")]
+    other = [x for x in recs if x["name"] not in ("vp_argv", "vp_out") and not (x["name"] == "vp_st" and case["delivery"].endswith("-pipe"))]
     if other:
         return "extra-command-ran"
     if case["pos"] == "cmd":
@@ -188,7 +194,8 @@ def gen_cases(tier):
     cases = []
     for cls, vals in VALUES.items():
         for v in vals:
-            for deliv in ("var", "var-brace", "assigned-var", "dollar-sub", "backquote-sub", "glob", "glob-dir"):
+            for deliv in ("var", "var-brace", "assigned-var", "dollar-sub", "backquote-sub", "backquote-whole", "dollar-sub-pipe",
+                          "backquote-sub-pipe", "glob", "glob-dir"):
                 if deliv in ("glob", "glob-dir") and ("/" in v or v in (".", "..")):
                     continue
                 if deliv == "assigned-var" and "'" in v:
@@ -199,9 +206,9 @@ def gen_cases(tier):
                     for pos in (0, 1, 2):
                         for nb in range(len(NEIGHBOURS)):
                             cases.append({"value": v, "cls": cls, "delivery": deliv, "quote": quote, "pos": pos, "nb": nb})
-                    if deliv not in ("glob", "glob-dir") and not (deliv == "backquote-sub" and quote == "unq"):
+                    if deliv not in ("glob", "glob-dir", "backquote-whole", "dollar-sub-pipe", "backquote-sub-pipe") and not (deliv == "backquote-sub" and quote == "unq"):
                         cases.append({"value": v, "cls": cls, "delivery": deliv, "quote": quote, "pos": "cmd", "nb": 0})
-                    if deliv not in ("glob", "glob-dir", "backquote-sub"):
+                    if deliv not in ("glob", "glob-dir", "backquote-sub", "backquote-whole", "backquote-sub-pipe"):
                         for pos in (0, 1, 2):
                             # (unquoted only: a quote that starts in the middle of a word is not what this property is about)
                             if quote == "unq":
@@ -228,7 +235,7 @@ def run(tier, seed):
     cicada = common.build_cicada("debug")
     rep = Report("C13", tier, seed)
     rep.rule = ("every value of 6 operator classes (> a>b >>zz | a|b & 'x &' && <f <<< 2>&1 ;x #c ...) x delivery "
-                "{$V exported, ${V}, $V assigned in the line, $(cmd), `cmd`, * match of a file with that name, * in a directory position matching a directory with that name} x "
+                "{$V exported, ${V}, $V assigned in the line, $(cmd), `cmd` inside a word and as a whole word, * match of a file with that name, * in a directory position matching a directory with that name} x "
                 "{unquoted, double-quoted} x argument position {first, middle, last} x 7 neighbouring words (plain, quoted, "
                 "backslash-tagged, empty): enumerated completely; every combination again (plain neighbour) with a genuine "
                 "`< f` / `<<< hs` / `> o.txt` written on the same command, which must still be the redirection applied; and "
@@ -247,7 +254,7 @@ def run(tier, seed):
             if "'" in v or "/" in v or "\0" in v or v in ("f", "d", "o.txt"):
                 continue          # (f, d, o.txt are the prepared directory's own entries)
             cls = "random-mix"
-            cases.append({"value": v, "cls": cls, "delivery": rng.choice(["var", "var-brace", "assigned-var", "dollar-sub", "backquote-sub", "glob", "glob-dir"]),
+            cases.append({"value": v, "cls": cls, "delivery": rng.choice(["var", "var-brace", "assigned-var", "dollar-sub", "backquote-sub", "backquote-whole", "glob", "glob-dir"]),
                           "quote": rng.choice(["unq", "dq"]), "pos": rng.randrange(3), "nb": rng.randrange(len(NEIGHBOURS)),
                           "company": rng.choice([None, None, "in-file", "here-string", "out-file"])})
     results = common.pmap(_work, cases, init=_init, initargs=(cicada,), chunksize=8)
